@@ -8,3 +8,9 @@ mkdir -p .work/setup
 gcc -Wall -shared -fPIC -O1 -o .work/setup/faultfs.so shims/faultfs.c -ldl
 rm -rf .work/setup
 echo "faultfs shim compiles"
+
+# --- eng_sched: controller/explorer self test on toy programs with known verdicts
+# (two-mutex ABBA deadlock; three-task RwLock deadlock that needs tokio's fair queueing):
+# no deadlock with 0 preemptions, found with ≤2, found schedule replays identically
+./sched/target/verif/eng_sched --prop SELFTEST --work .work/setup-sched
+rm -rf .work/setup-sched
